@@ -15,7 +15,8 @@ Python modelled
 * `LetFiller.visit_Constant / visit_NamedQubit / visit_Register / visit_default` and `RegisterVisitor.visit_NamedQubit`
   (`letVal ov rv`, `rv` = "is the `RegisterVisitor`"): a qubit is ALWAYS rebuilt on the visited register —
   `new_from[new_index]` (`Register.__getitem__` / `Parameter.__getitem__`, which rename it `f"{new_from.name}[{new_index}]"`)
-  when the index was a constant and the visitor is the `LetFiller`, `NamedQubit(qubit.name, new_from, index)` otherwise;
+  when the index was a constant, the visitor is the `LetFiller` and the qubit is the anonymous `r[n]` (not a declared
+  single-qubit alias `map m r[n]`, which keeps its name), `NamedQubit(qubit.name, new_from, index)` otherwise;
   a fundamental register is rebuilt (`Register(name, value)`) only when its size is a constant; an alias is always
   rebuilt (`Register(name, alias_from=…, alias_slice=…)`).  The constructors' checks are the `Builder` model's
   `mkRegister`, `mkQubit`, `mkSlice`;
@@ -25,7 +26,8 @@ Python modelled
   visit(body)]`, `["macro", name, *parameter NAMES, body]` (the rebuilt macro's parameters are untyped),
   `["circuit", *usepulses, *constants, *visited registers, *macros, *body[1:]]`; order of visits: body, registers, macros;
 * `MapFiller` likewise (`mapVal`, `mapStmt` = the same `visitStmt`, `mapMacro`, `fillInMap`): `visit_NamedQubit` = `reg[index]` of
-  `qubit.resolve_qubit()` (empty context: a qubit indexed by / taken from a macro parameter raises `JaqalError`),
+  `qubit.resolve_qubit()` (empty context: a qubit indexed by / taken from a macro parameter raises `JaqalError`;
+  `JaqalError` too when the fundamental register's name is a parameter name of the macro being visited),
   `visit_Register` = the register itself if fundamental, `JaqalError` for an alias; subcircuit iteration counts are
   passed unvisited.
 
@@ -82,6 +84,17 @@ def mkSliceN (name : String) (src a b s : Val) : M Val :=
   if a == .none || b == .none || s == .none then throw (unmodelled "none-slice-bound")
   else mkSlice name src a b s
 
+/-- the end of `visit_NamedQubit` when the index was a constant (`nf`, `ni` = the visited register and the value of the
+index).  `RegisterVisitor`: `NamedQubit(qubit.name, new_from, new_index)`.  `LetFiller`: a qubit whose name is not
+`make_item_name(qubit.alias_from, qubit.alias_index)` is a declared single-qubit alias (`map m r[n]`) and keeps its name;
+the anonymous `r[n]` is re-indexed, `new_from[new_index]`, which renames it `r[2]`. -/
+def constIndexQubit (rv : Bool) (name : String) (src idx nf ni : Val) : M Val :=
+  if rv then mkQubit name nf ni
+  else
+    match (src.name?).bind (fun an => itemName an idx) with
+    | some nm => if name != nm then mkQubit name nf ni else getItem nf ni
+    | Option.none => throw (.other "AttributeError")
+
 /-- `LetFiller.visit` (`rv = false`) / `RegisterVisitor.visit` (`rv = true`) on a value -/
 def letVal (ov : List (String × Num)) (rv : Bool) : Val → M Val
   | .const n v => resolveConstant ov (.const n v)
@@ -89,7 +102,7 @@ def letVal (ov : List (String × Num)) (rv : Bool) : Val → M Val
     let nf ← letVal ov rv src
     if isConst idx then do
       let ni ← resolveConstant ov idx
-      if rv then mkQubit name nf ni else getItem nf ni
+      constIndexQubit rv name src idx nf ni
     else mkQubit name nf idx
   | .regF name size =>
     if isConst size then do
@@ -231,10 +244,12 @@ def resolveQubitV (ctx : Resolve.Ctx) : Val → M (Val × Int)
     | _ => .error (.jaqal "index-not-integer")
   | _ => .error (.other "AttributeError")
 
-/-- `MapFiller.visit` on a value -/
-def mapVal : Val → M Val
+/-- `MapFiller.visit` on a value; `mps` = `self.macro_parameters`, the parameter names of the macro being visited
+(empty outside macros): the register's name must not be written where a parameter of that name shadows it -/
+def mapVal (mps : List String) : Val → M Val
   | .qubit n src idx => do
     let (reg, k) ← resolveQubitV [] (.qubit n src idx)
+    if mps.contains ((reg.name?).getD "") then throw (.jaqal "macro-parameter-named-like-register")
     getItem reg (.int k)
   | .regF n size => pure (.regF n size)
   | .regA _ _ => throw (.jaqal "full-alias-in-statements")
@@ -242,16 +257,16 @@ def mapVal : Val → M Val
   | v => pure v
 
 /-- `MapFiller.visit` on a statement (the iteration count of a subcircuit block is not visited) -/
-def mapStmt : Stmt → M BSx := visitStmt mapVal pure
+def mapStmt (mps : List String) : Stmt → M BSx := visitStmt (mapVal mps) pure
 
 /-- `MapFiller.visit_Macro` -/
 def mapMacro (m : Macro) : M BSx := do
-  let b ← mapStmt m.body
+  let b ← mapStmt (m.params.map (·.1)) m.body
   pure (macroSx m b)
 
 /-- the S-expression `MapFiller.visit_Circuit` hands to the builder -/
 def mapSx (c : Circuit) : M BSx := do
-  let body ← mapStmt c.body
+  let body ← mapStmt [] c.body
   let stmts ← tailOf body
   let macros ← c.macros.mapM mapMacro
   pure (circuitSx c c.registers macros stmts)
